@@ -183,8 +183,8 @@ class Quantity:
             raise TypeError('The value must be a valid Python or Numpy numeric type.')
         if isinstance(value, bool):
             value = int(value)
-        if unit.scale == 1:
-            self.si = value
+        if unit.scale == 1 or vprim.is_nonfinite(value):
+            self.si = value          # nan / +-inf are unaffected by a (positive) unit scale
         else:
             self.si = value * unit.scale
         self.unit = unit
@@ -198,7 +198,7 @@ class Quantity:
 
     @property
     def value(self):
-        if self.unit.scale == 1:
+        if self.unit.scale == 1 or vprim.is_nonfinite(self.si):
             return self.si
         return self.si / self.unit.scale
 
